@@ -1,0 +1,17 @@
+//go:build verif
+
+package rpc
+
+// Contracts for the deductive verifier in /verif (govc). Comment-only file: adds no code.
+
+// Configured guards of an RPC server: shedding iff a CPU threshold is set, the deadline guard iff a timeout is
+// set (in milliseconds), authentication (unary and stream) iff auth is enabled - in that order.
+//@ func setupInterceptors
+//@   prop C02, C04, C09
+//@   opaque NewAdaptiveShedder, WithCpuThreshold, UnarySheddingInterceptor, UnaryTimeoutInterceptor, NewAuthenticator, NewRedis, StreamAuthorizeInterceptor, UnaryAuthorizeInterceptor
+//@   ensures [shedding-iff-threshold] (calls(serverinterceptors.UnarySheddingInterceptor) == 1) == (c.CpuThreshold > 0)
+//@   ensures [timeout-iff-configured] (calls(serverinterceptors.UnaryTimeoutInterceptor) == 1) == (c.Timeout > 0) && (c.Timeout > 0 ==> arg(serverinterceptors.UnaryTimeoutInterceptor, 0) == c.Timeout * 1000000)
+//@   ensures [auth-iff-enabled] !c.Auth ==> calls(NewAuthenticator) == 0 && calls(UnaryAuthorizeInterceptor) == 0 && calls(StreamAuthorizeInterceptor) == 0
+//@   ensures [auth-both-kinds-with-strictness] c.Auth && ret(auth.NewAuthenticator, 1) == nil ==> calls(serverinterceptors.UnaryAuthorizeInterceptor, ret(auth.NewAuthenticator, 0)) == 1 && calls(serverinterceptors.StreamAuthorizeInterceptor, ret(auth.NewAuthenticator, 0)) == 1 && arg(auth.NewAuthenticator, 2) == c.StrictControl && arg(auth.NewAuthenticator, 1) == c.Redis.Key && result == nil
+//@   ensures [auth-setup-error] c.Auth && ret(auth.NewAuthenticator, 1) != nil ==> result == ret(auth.NewAuthenticator, 1) && calls(UnaryAuthorizeInterceptor) == 0
+//@   ensures [every-unary-guard-registered] calls(server.AddUnaryInterceptors) == calls(UnarySheddingInterceptor) + calls(UnaryTimeoutInterceptor) + calls(UnaryAuthorizeInterceptor)
